@@ -157,11 +157,11 @@ impl core::ops::Index<core::ops::RangeFrom<usize>> for BytesMut {
 
 /// memchr::memchr: index of the first occurrence
 #[verifier::external_body]
-pub fn memchr(needle: u8, hay: &BytesMut) -> (r: Option<usize>)
+pub fn memchr<B: ByteView + ?Sized>(needle: u8, hay: &B) -> (r: Option<usize>)
     ensures
-        r matches Some(i) ==> i < hay@.len() && hay@[i as int] == needle && forall|j: int| 0 <= j < i ==> hay@[j] != needle,
+        r matches Some(i) ==> i < hay.bv().len() && hay.bv()[i as int] == needle && forall|j: int| 0 <= j < i ==> hay.bv()[j] != needle,
         r matches Some(i) ==> i < isize::MAX as usize,      // a Rust slice is at most isize::MAX bytes long
-        r is None ==> forall|j: int| 0 <= j < hay@.len() ==> hay@[j] != needle,
+        r is None ==> forall|j: int| 0 <= j < hay.bv().len() ==> hay.bv()[j] != needle,
 { unimplemented!() }
 
 /// UTF-8 validity is an uninterpreted predicate tied to the std validators (which are trusted)
